@@ -199,3 +199,25 @@ func TestC11WriteFault(t *testing.T) {
 		Gen:  genC11WF, Exec: execC11WF,
 	})
 }
+
+// C10WriteFault: the C11WriteFault histories judged for C10's "entries are kept until their expiry": when the snapshot
+// of a process life fails part-way (disk full), the next life's notification log answers exactly like the previous
+// good snapshot or exactly like the new state; it neither refuses to start nor holds a part of either.
+func TestC10WriteFault(t *testing.T) {
+	pbt.Run(t, pbt.Spec[c11wfScenario]{
+		Property: "C10", Name: "C10WriteFault",
+		Rule: "the scenarios of C11WriteFault (three process lives over real files; the second life's shutdown snapshot is written under a file-size limit of 0..5000 bytes). Judged here, for the notification log only: the third life starts, and its answers for every key equal those of the first life's snapshot or those of the second life's state (kinds write-fault-refuses-to-start, write-fault-torn-state with store=nflog). Non-trivial: as C11WriteFault.",
+		Gen:  genC11WF,
+		Exec: func(sc c11wfScenario) pbt.Result {
+			res := execC11WF(sc)
+			kept := res.Violations[:0]
+			for _, v := range res.Violations {
+				if v.Kind == "harness" || v.Facts["store"] == "nflog" {
+					kept = append(kept, v)
+				}
+			}
+			res.Violations = kept
+			return res
+		},
+	})
+}
